@@ -129,6 +129,15 @@ def corr_covariance(res, tier, rng):
         lines += [tensors.tempo_line(t0, n), tensors.tempo_line(t1, n)]
         d0 = t0.compute(cases.end_time(case), progress_type="silent").states
         d1 = t1.compute(cases.end_time(case), progress_type="silent").states
+        # PT-TEMPO + compute_dynamics on the rotated problem (its basis change lives in the
+        # process tensor's transforms)
+        pt1 = cases.make_pt(rot, unique=unique)
+        p1 = oqupy.compute_dynamics(rot["system"], initial_state=rot["rho0"], process_tensor=pt1,
+                                    start_time=rot["start"], num_steps=n, progress_type="silent").states
+        ept = max(np.abs(np.array(a) - np.array(b)).max() for a, b in zip(d1, p1))
+        if ept > 1e-8:
+            res.disagree("rotated problem: PT-TEMPO + compute_dynamics differs from TEMPO by %g"
+                         % ept, {"case": case["desc"], "V": vk})
         meta.append((case["desc"], vk, v, d0, d1))
         res.count("cov:V=%s:d=%d:unique=%s" % (vk, d, unique))
     out = fw.run_driver("PathSum", lines)
@@ -196,6 +205,13 @@ def search(res):
         if err > 1e-6:
             res.fail("covariance:Tempo:unique=%s" % uq, {"case": case["desc"], "unique": uq,
                                                           "difference": err})
+        ptr = cases.make_pt(rot, unique=uq, epsrel=1e-10)
+        c = oqupy.compute_dynamics(rot["system"], initial_state=rot["rho0"], process_tensor=ptr,
+                                   start_time=rot["start"], progress_type="silent").states
+        err = max(np.abs(v @ np.array(x) @ v.conj().T - np.array(y)).max() for x, y in zip(a, c))
+        if err > 1e-6:
+            res.fail("covariance:PtTempo:unique=%s" % uq, {"case": case["desc"], "unique": uq,
+                                                            "difference": err})
 
 
 def run(tier, seed, replay):
